@@ -33,7 +33,7 @@ package websocket
 //@ define wsLenClass() = wsb(1) & 0x7f
 //@ define wsMasked() = wsb(1) & 0x80 != 0
 //@ define wsHdr() = 2 + ite(wsLenClass() == 126, 2, ite(wsLenClass() == 127, 8, 0))
-//@ define wsLen() = ite(wsLenClass() == 126, wsb(2) * 256 + wsb(3), ite(wsLenClass() == 127, ((((((wsb(2) * 256 + wsb(3)) * 256 + wsb(4)) * 256 + wsb(5)) * 256 + wsb(6)) * 256 + wsb(7)) * 256 + wsb(8)) * 256 + wsb(9), wsLenClass()))
+//@ define wsLen() = ite(wsLenClass() == 126, wsb(2) << 8 | wsb(3), ite(wsLenClass() == 127, wsb(2) << 56 | wsb(3) << 48 | wsb(4) << 40 | wsb(5) << 32 | wsb(6) << 24 | wsb(7) << 16 | wsb(8) << 8 | wsb(9), wsLenClass()))
 //@ func (*Conn).ReadData props C20
 //@   requires c != nil && c.conn != nil
 //@   requires forall(k, 0, 1 << 62, 0 <= ghostat(wsin, k) && ghostat(wsin, k) <= 255)
@@ -42,7 +42,14 @@ package websocket
 //@   ensures implies(err == nil && wsLenClass() < 126, len(data) == wsLen())
 //@   ensures implies(err == nil && wsLenClass() == 126, len(data) == wsLen())
 //@   ensures implies(err == nil && wsLenClass() == 127, len(data) == wsLen())
-//@   ensures implies(err == nil, ghost(wspos) == old(ghost(wspos)) + wsHdr() + ite(wsMasked(), 4, 0) + wsLen())
+//@   ensures implies(err == nil && wsLenClass() < 126 && !wsMasked(), ghost(wspos) == old(ghost(wspos)) + 2 + wsLen())
+//@   ensures implies(err == nil && wsLenClass() < 126 && wsMasked(), ghost(wspos) == old(ghost(wspos)) + 6 + wsLen())
+//@   ensures implies(err == nil && wsLenClass() == 126 && !wsMasked(), ghost(wspos) == old(ghost(wspos)) + 4 + wsLen())
+//@   ensures implies(err == nil && wsLenClass() == 126 && wsMasked(), ghost(wspos) == old(ghost(wspos)) + 8 + wsLen())
+//@   ensures implies(err == nil && wsLenClass() == 127 && !wsMasked(), ghost(wspos) == old(ghost(wspos)) + 10 + wsLen())
+//@   ensures implies(err == nil && wsLenClass() == 127 && wsMasked(), ghost(wspos) == old(ghost(wspos)) + 14 + wsLen())
 //@   ensures implies(err == nil && !wsMasked(), forall(i, 0, len(data), int(data[i]) == wsb(wsHdr() + i)))
-//@   ensures implies(err == nil && wsMasked(), forall(i, 0, len(data), int(data[i]) == wsb(wsHdr() + 4 + i) ^ wsb(wsHdr() + (i & 3))))
+//@   ensures implies(err == nil && wsMasked() && wsLenClass() < 126, forall(i, 0, len(data), int(data[i]) == wsb(6 + i) ^ wsb(2 + (i & 3))))
+//@   ensures implies(err == nil && wsMasked() && wsLenClass() == 126, forall(i, 0, len(data), int(data[i]) == wsb(8 + i) ^ wsb(4 + (i & 3))))
+//@   ensures implies(err == nil && wsMasked() && wsLenClass() == 127, forall(i, 0, len(data), int(data[i]) == wsb(14 + i) ^ wsb(10 + (i & 3))))
 //@   modifies c.maskKey, ghost(wspos)
